@@ -274,8 +274,8 @@ impl SwiftField for Field55ThirdReimbursementInstitution {
                 let field = Field55D::parse(value)?;
                 Ok(Field55ThirdReimbursementInstitution::D(field))
             }
-            None | Some("") => {
-                // No option letter given: fall back to default parse behavior
+            None => {
+                // No tag information at all (direct API use): fall back to default parse behavior
                 Self::parse(value)
             }
             Some(other) => Err(ParseError::InvalidFormat {
